@@ -19,8 +19,10 @@ type PropFunc func(t *testing.T, ch *choice.Source, opt harness.Options, env *En
 // Env is the per-run environment of the child process.
 type Env struct {
 	Scratch string
-	job     harness.Job
-	ch      *choice.Source
+	// Params are the free-form parameters of the job.
+	Params map[string]string
+	job    harness.Job
+	ch     *choice.Source
 }
 
 // Phase records what the child is doing, so that the parent can classify a
@@ -70,7 +72,7 @@ func RunJob(t *testing.T) {
 		t.Fatal(err)
 	}
 	defer os.RemoveAll(scratch)
-	env := &Env{Scratch: scratch, job: job, ch: ch}
+	env := &Env{Scratch: scratch, job: job, ch: ch, Params: job.Params}
 	atexit.Register(env.saveConsumed)
 
 	res := func() (res harness.Result) {
